@@ -22,7 +22,7 @@ package fsm
 //@ func incrementRightmostByte
 //@   results out
 //@   requires len(in) > 0
-//@   ensures [C12.succ+C01] (exists p int :: 0 <= p && p < len(in) && old(in[p]) != 255 && sameSlice(out, in) && out[p] == old(in[p]) + 1 && (forall j int :: p < j && j < len(in) ==> old(in[j]) == 255 && out[j] == 0) && (forall j int :: 0 <= j && j < p ==> out[j] == old(in[j]))) || ((forall j int :: 0 <= j && j < len(in) ==> old(in[j]) == 255) && len(out) == len(in) + 1 && out[0] == 1 && (forall j int :: 1 <= j && j < len(out) ==> out[j] == 0))
+//@   ensures [C12.succ+C01] (sameSlice(out, in) && exists p int :: 0 <= p && p < len(in) && old(in[p]) != 255 && in[p] == old(in[p]) + 1 && (forall j int :: p < j && j < len(in) ==> old(in[j]) == 255 && in[j] == 0) && (forall j int :: 0 <= j && j < p ==> in[j] == old(in[j]))) || ((forall j int :: 0 <= j && j < len(in) ==> old(in[j]) == 255) && len(out) == len(in) + 1 && out[0] == 1 && (forall j int :: 1 <= j && j < len(out) ==> out[j] == 0))
 //@   modifies elems(in)
 //@   loop 0 invariant 0 <= i && i < len(in)
 //@   loop 0 invariant forall j int :: i < j && j < len(in) ==> old(in[j]) == 255 && in[j] == 0
